@@ -2,10 +2,11 @@
 
 use super::good_lp::{collect_good_lp_duals, solve_with_good_lp};
 use super::{LpSolution, SolverError, find_invalid_variables};
-use crate::math::VariableType;
+use crate::math::{OptimizationType, VariableType};
 use crate::transformers::LinearModel;
 use ::clarabel::solver::SolverStatus;
 use ::good_lp::SolutionWithDual;
+use indexmap::IndexMap;
 
 /// Solves a linear programming problem with real variables using the Clarabel solver.
 ///
@@ -65,7 +66,14 @@ pub fn solve_real_lp_problem_clarabel(lp: &LinearModel) -> Result<LpSolution<f64
                 solution.inner().status,
                 SolverStatus::DualInfeasible | SolverStatus::AlmostDualInfeasible
             ) {
-                return Err(SolverError::Unbounded);
+                // The certificate only says the objective can improve for ever along
+                // some direction. That makes the problem unbounded if a feasible point
+                // exists; an LP can also be primal and dual infeasible at once.
+                return Err(if has_feasible_point(lp)? {
+                    SolverError::Unbounded
+                } else {
+                    SolverError::Infeasible
+                });
             }
             Ok(())
         },
@@ -74,4 +82,22 @@ pub fn solve_real_lp_problem_clarabel(lp: &LinearModel) -> Result<LpSolution<f64
             collect_good_lp_duals(dual, references)
         },
     )
+}
+
+/// Whether any point satisfies the rows and domains of `lp`, decided by solving it
+/// with a zero objective (which cannot be unbounded).
+fn has_feasible_point(lp: &LinearModel) -> Result<bool, SolverError> {
+    let mut feasibility = lp.clone();
+    feasibility.set_objective(vec![0.0; lp.variables().len()], OptimizationType::Min);
+    match solve_with_good_lp(
+        &feasibility,
+        ::good_lp::clarabel,
+        |model, _| Ok(model),
+        |_| Ok(()),
+        |_, _| IndexMap::new(),
+    ) {
+        Ok(_) => Ok(true),
+        Err(SolverError::Infeasible) => Ok(false),
+        Err(error) => Err(error),
+    }
 }
